@@ -56,9 +56,35 @@ def worker(args):
         if key not in res["viol"]:
             res["viol"][key] = dict({"isa": name, "mode": k, "kind": kind, "bytes": b.hex(), "decoded": o}, **extra)
 
+    def pair_inputs():
+        """short spec A accepted on X[:a] while a longer, earlier spec B is compatible with those bytes:
+        X[:a] followed by the rest of X is the tail that may change the outcome (encoding not prefix-free)"""
+        e = dis.endian()
+        H = []
+        for s in specs:
+            n = s.fix.size // 8
+            H.append((s.fix.ival.to_bytes(n, "little")[::e], s.mask.ival.to_bytes(n, "little")[::e]))
+        prng = random.Random(12345)
+        out = []
+        for ia in range(len(specs)):
+            fa, ma = H[ia]
+            a = len(fa)
+            for ib in range(ia):
+                fb, mb_ = H[ib]
+                if len(fb) <= a or not all(((fa[i] ^ fb[i]) & ma[i] & mb_[i]) == 0 for i in range(a)):
+                    continue
+                for _ in range(6):
+                    x = bytearray(prng.getrandbits(8) for _ in range(len(fb)))
+                    for i in range(len(fb)):
+                        x[i] = (x[i] & ~mb_[i] & 0xff) | fb[i]
+                    for i in range(a):
+                        x[i] = (x[i] & ~ma[i] & 0xff) | fa[i]
+                    out.append(("pair", bytes(x[:a]), bytes(x[a:]) + bytes(prng.getrandbits(8) for _ in range(ml))))
+        return out
+
     with isa.ModeCtx(dis, k):
-        inputs = c04.gen_inputs(rng, name, dis, specs, nrandom, nspec)
-        for kind, b in inputs:
+        inputs = [(kd, b, None) for kd, b in c04.gen_inputs(rng, name, dis, specs, nrandom, nspec)] + pair_inputs()
+        for kind, b, forced in inputs:
             res["n"] += 1
             o = d(b)
             if o is None or "raised" in o:
@@ -73,7 +99,7 @@ def worker(args):
             o2 = d(b[:n])
             if not same(o, o2):
                 report("exact-bytes-differ", o, b, {"consumed": n, "redecoded": o2})
-            for t in (bytes(rng.getrandbits(8) for _ in range(rng.choice([1, 3, ml]))), b"\x00" * ml, b"\xff" * ml):
+            for t in ([forced] if forced else []) + [bytes(rng.getrandbits(8) for _ in range(rng.choice([1, 3, ml]))), b"\x00" * ml, b"\xff" * ml]:
                 o3 = d(b[:n] + t)
                 if not same(o, o3):
                     report("tail-dependent", o, b, {"consumed": n, "tail": t.hex(), "redecoded": o3})
@@ -85,7 +111,7 @@ def worker(args):
             if len(res["samples"]) < 1 and n < len(b):
                 res["samples"].append({"isa": name, "mode": k, "bytes": b.hex(), "consumed": n, "mnemonic": o["mnemonic"]})
         ids = {id(s): n for n, s in enumerate(specs)}
-        for kind, b in inputs[:nmodel]:
+        for kind, b, _f in inputs[:nmodel]:
             isa.reset_pending(dis)
             out, tr = decmodel.traced_call(dis, b)
             isa.reset_pending(dis)
